@@ -3,6 +3,9 @@
 * ``np.arctan2(y, x)``: element-wise two-argument arctangent — the uninterpreted ``atan2`` of pyvc.sv with the axiom of
   pyvc.axioms (r cos(phi) = x, r sin(phi) = y, r = sqrt(x^2 + y^2), -pi < phi <= pi when (x, y) != (0, 0)).
 * ``np.angle(z)``: element-wise ``atan2(Im z, Re z)``.
+* DataFrame arithmetic ``df op df``, ``df op scalar``, ``scalar op df`` (op in + - * /): element-wise per column; two frames must have
+  the same columns in the same order and the same length (side obligation); the result is a new frame (pandas aligns on labels,
+  both frames carry the default RangeIndex).
 * ``open(path, mode, encoding=...)``: returns an opaque text-file handle.  Nothing is assumed about the content; the handle only
   carries its path, whether it is closed, and a *read position counter* (a 0-d integer cell on the engine heap) that callee
   contracts of reader functions (``read_neighbors``) advance: "consecutive calls on the same handle deliver consecutive
@@ -65,9 +68,35 @@ def handle_info(h):
     return d
 
 
+def _df_binop(lib, prev):
+    def value_binop(interp, op, a, b):
+        from ..pandas_model import df_content, new_df
+        da = isinstance(a, Ref) and a.kind == "df"
+        db = isinstance(b, Ref) and b.kind == "df"
+        if not (da or db) or op not in ("+", "-", "*", "/"):
+            return prev(interp, op, a, b)
+        if (not da and not sv.is_scalar(norm(a))) or (not db and not sv.is_scalar(norm(b))):
+            return prev(interp, op, a, b)
+        ca = df_content(a) if da else None
+        cb = df_content(b) if db else None
+        ref = ca or cb
+        if da and db:
+            if list(ca["order"]) != list(cb["order"]):
+                raise EngineError("DataFrame arithmetic on frames with different columns")
+            A.require_dim_eq(ca["n"], cb["n"], "dataframe-arithmetic-equal-length")
+        cols = {}
+        for name in ref["order"]:
+            x = ca["cols"][name] if da else a
+            y = cb["cols"][name] if db else b
+            cols[name] = A.binop(op, x, y)
+        return new_df(cols, ref["order"], ref["n"])
+    return value_binop
+
+
 def register(lib):
     from .. import lib as L
     from .. import text as T
+    lib.value_binop = _df_binop(lib, lib.value_binop)
     lib.np["arctan2"] = LibFunc("np.arctan2", _arctan2)
     lib.np["angle"] = LibFunc("np.angle", _angle)
     if not getattr(T.open_file, "_c10", False):
